@@ -59,9 +59,12 @@ impl Rng {
         (self.u64() >> 56) as u8
     }
 
-    /// uniform in 0..n (n > 0)
+    /// uniform in 0..n; `below(0)` is 0 (still consumes one draw)
     pub fn below(&mut self, n: u64) -> u64 {
-        assert!(n > 0);
+        if n == 0 {
+            let _ = self.u64();
+            return 0;
+        }
         // multiply-shift; bias is irrelevant for workload generation
         ((u128::from(self.u64()) * u128::from(n)) >> 64) as u64
     }
